@@ -1,6 +1,7 @@
 import Toq.Model.Combinat
 import Toq.Spec.Combinat
 import Toq.Proofs.Combinat
+import Toq.Proofs.CombinatRank
 import Mathlib.Data.Nat.Choose.Basic
 /-!
 # C18 — symmetric / antisymmetric projectors and combinatorial enumerators are exact
@@ -17,10 +18,17 @@ What is proved about what:
   orthogonality, `p = 2` resolution of the identity) are proved for the specification matrices for **all** `d`, `p` by group averaging
   over `Equiv.Perm (Fin p)`, where `permMat σ` is proved to be the entry pattern of the C01 model of `permutation_operator`
   (`permOp_eq_permMat`); two of the laws are also transported back to the integer model (`symProj_idempotent_model`,
-  `symProj_fixed_model`); (c) ranks: `rank = trace` for idempotents is proved in general (`rank_eq_trace_of_idempotent`); the trace itself
-  is evaluated by the kernel (`decide +kernel`) on the property's finite table `d, p ∈ 1..4` only (`symSpec_rank_table`,
-  `antiSpec_rank_table`) — no general-`d` rank formula is proved.
-* `partial=True` (LAPACK `orth`) has no Lean model; it is checked numerically by the harness against the exact projector.
+  `symProj_fixed_model`); (c) ranks, for **all** `d`, `p`: `rank = trace` for idempotents (`rank_eq_trace_of_idempotent`); `trace symSpec = C(d+p-1, p)` by
+  Burnside's lemma for the subsystem permutations acting on digit vectors, whose orbits are the multisets of `p` digits (stars and bars,
+  `fixed_digit_vectors_count`, `symSpec_trace`); `trace antiSpec = C(d, p)` because only injective digit vectors have a non-zero diagonal
+  entry, `1/p!` (`antiSpec_trace`); hence `symSpec_rank`, `antiSpec_rank`, also for the integer models (`symProj_rank_model`, …).  The kernel
+  evaluation of the traces on the table `d, p ∈ 1..4` is kept as a cross-check `example`.
+* the ranges: the range of `symSpec` is exactly the set of vectors fixed by every `W_τ`, the range of `antiSpec` the set of vectors on which every `W_τ`
+  acts as its sign (`symSpec_range`, `antiSpec_range`).
+* `partial=True`: the control flow (early returns, shapes) is modelled (`symForm`, `antisymForm`; `partial_shape`: the number of columns is the
+  rank); LAPACK's `orth` itself has no Lean model, its contract is: `VᵀV = 1`, `V Vᵀ = P`.  `isometry_contract_of_residuals` proves that what the
+  harness measures exactly on the returned floats (`VᵀV = 1`, `P V = V`, number of columns `= rank P`) implies the contract, in any field of
+  characteristic `0`; `isometry_contract_consequences` is the converse.
 -/
 namespace Toq.C18
 open Equiv Matrix Toq.Perms Toq.C01 Toq.Combinat Toq.Combinat.Spec
@@ -158,6 +166,22 @@ theorem perfectMatchings_odd {α : Type} [DecidableEq α] (S : List α) (ho : S.
   rw [perfectMatchings_eq_pmSpec S h0]
   exact pmSpec_odd S ho
 
+/-- **The `int` argument form** `perfect_matchings(n)` (`num = np.arange(n)`), `n` even and positive: the rows are perfect matchings of `0..n-1`, pairwise
+    different as matchings, every perfect matching occurs, and there are `(n-1)!!` rows. -/
+theorem perfectMatchingsInt_spec (n : ℕ) (he : n % 2 = 0) (h0 : 0 < n) :
+    (∀ row ∈ perfectMatchingsInt n, IsPerfectMatching (List.range n) (matchingOf row)) ∧
+    ((perfectMatchingsInt n).map matchingOf).Nodup ∧
+    (∀ M, IsPerfectMatching (List.range n) M → ∃ row ∈ perfectMatchingsInt n, matchingOf row = M) ∧
+    (perfectMatchingsInt n).length = Nat.doubleFactorial (n - 1) := by
+  have hn : (List.range n).Nodup := List.nodup_range
+  have hl : (List.range n).length % 2 = 0 := by rw [List.length_range]; exact he
+  have hne : List.range n ≠ [] := by
+    intro h; have := congrArg List.length h; rw [List.length_range] at this; simp at this; omega
+  refine ⟨fun row hrow => perfectMatchings_valid _ hn hl hne row hrow, perfectMatchings_nodup _ hn hl hne,
+    fun M hM => perfectMatchings_complete _ hn hl hne M hM, ?_⟩
+  have := perfectMatchings_count (List.range n) hl hne
+  rwa [List.length_range] at this
+
 /-- non-vacuity: the docstring example, and the count for six objects -/
 example : perfectMatchings [0, 1, 2, 3] = [[0, 1, 2, 3], [0, 2, 1, 3], [0, 3, 2, 1]]
     ∧ (perfectMatchings [5, 3, 9, 1, 0, 4]).length = 15 := by decide
@@ -270,6 +294,63 @@ theorem symProj_fixed_model {d p : ℕ} (hd : 0 < d) (f : ℕ → ℕ) (hf : IsP
   rw [permMat_mul_symSpec, one_mul, ← symProjN_eq] at h
   exact Int.cast_injective h
 
+/-- idempotence of the antisymmetric integer model: `(p!·A)² = p!·(p!·A)` -/
+theorem antisymProj_idempotent_model {d p : ℕ} (hd : 0 < d) (i j : ℕ) (hi : i < d ^ p) (hj : j < d ^ p) :
+    sumN (d ^ p) (fun k => antisymProjN d p i k * antisymProjN d p k j) = (p.factorial : ℤ) * antisymProjN d p i j := by
+  obtain ⟨y, rfl⟩ := index_is_digits hd i hi
+  obtain ⟨x, rfl⟩ := index_is_digits hd j hj
+  have h := matmul_cast hd (antisymProjN d p) (antisymProjN d p) (antiSpec d p) (antiSpec d p) _ _
+    (fun y x => antisymProjN_eq y x) (fun y x => antisymProjN_eq y x) y x
+  rw [antiSpec_mul_self] at h
+  have h2 : (((p.factorial : ℤ) * antisymProjN d p (encD y) (encD x) : ℤ) : ℚ)
+      = (p.factorial : ℚ) * (p.factorial : ℚ) * antiSpec d p y x := by
+    push_cast; rw [antisymProjN_eq]; ring
+  exact Int.cast_injective (h.trans h2.symm)
+
+/-- sign action on the integer model: left multiplication by the model of `permutation_operator(d·ones(p), τ)` multiplies the accumulated
+    antisymmetric matrix by `perm_sign(τ + 1)` (the very call the code makes) -/
+theorem antisymProj_sign_model {d p : ℕ} (hd : 0 < d) (f : ℕ → ℕ) (hf : IsPermN p f) (i j : ℕ) (hi : i < d ^ p)
+    (hj : j < d ^ p) :
+    sumN (d ^ p) (fun k => permOp (α := ℤ) p f (constDims d) false i k * antisymProjN d p k j)
+      = permSign p (fun k => (f k : ℤ) + 1) * antisymProjN d p i j := by
+  obtain ⟨y, rfl⟩ := index_is_digits hd i hi
+  obtain ⟨x, rfl⟩ := index_is_digits hd j hj
+  have h := matmul_cast hd (permOp (α := ℤ) p f (constDims d) false) (antisymProjN d p) (permMat d p (permOfFn p f hf))
+    (antiSpec d p) 1 _ (fun y x => by rw [permOp_eq_permMat f hf, one_mul]) (fun y x => antisymProjN_eq y x) y x
+  rw [permMat_mul_antiSpec, one_mul, Matrix.smul_apply, smul_eq_mul] at h
+  have h2 : ((permSign p (fun k => (f k : ℤ) + 1) * antisymProjN d p (encD y) (encD x) : ℤ) : ℚ)
+      = (p.factorial : ℚ) * (((Perm.sign (permOfFn p f hf) : ℤ) : ℚ) * antiSpec d p y x) := by
+    push_cast; rw [antisymProjN_eq, permSign_one_indexed p f hf]; ring
+  exact Int.cast_injective (h.trans h2.symm)
+
+/-- orthogonality on the integer models, `p ≥ 2` -/
+theorem proj_orthogonal_model {d p : ℕ} (hd : 0 < d) (hp : 2 ≤ p) (i j : ℕ) (hi : i < d ^ p) (hj : j < d ^ p) :
+    sumN (d ^ p) (fun k => symProjN d p i k * antisymProjN d p k j) = 0 ∧
+    sumN (d ^ p) (fun k => antisymProjN d p i k * symProjN d p k j) = 0 := by
+  obtain ⟨y, rfl⟩ := index_is_digits hd i hi
+  obtain ⟨x, rfl⟩ := index_is_digits hd j hj
+  have h1 := matmul_cast hd (symProjN d p) (antisymProjN d p) (symSpec d p) (antiSpec d p) _ _
+    (fun y x => symProjN_eq y x) (fun y x => antisymProjN_eq y x) y x
+  have h2 := matmul_cast hd (antisymProjN d p) (symProjN d p) (antiSpec d p) (symSpec d p) _ _
+    (fun y x => antisymProjN_eq y x) (fun y x => symProjN_eq y x) y x
+  rw [symSpec_mul_antiSpec hp] at h1
+  rw [antiSpec_mul_symSpec hp] at h2
+  constructor
+  · apply Int.cast_injective (α := ℚ); rw [h1]; simp
+  · apply Int.cast_injective (α := ℚ); rw [h2]; simp
+
+/-- `p = 2` on the integer models: `2!·S + 2!·A = 2·1` entrywise -/
+theorem proj_sum_model {d : ℕ} (hd : 0 < d) (i j : ℕ) (hi : i < d ^ 2) (hj : j < d ^ 2) :
+    symProjN d 2 i j + antisymProjN d 2 i j = if i = j then 2 else 0 := by
+  obtain ⟨y, rfl⟩ := index_is_digits hd i hi
+  obtain ⟨x, rfl⟩ := index_is_digits hd j hj
+  apply Int.cast_injective (α := ℚ)
+  push_cast
+  rw [symProjN_eq, antisymProjN_eq, ← mul_add, ← Matrix.add_apply, symSpec_add_antiSpec_two, Matrix.one_apply]
+  by_cases h : y = x
+  · subst h; simp [Nat.factorial]
+  · rw [if_neg h, if_neg (fun e => h (encD_inj _ _ e))]; simp
+
 /-! ## ranks -/
 
 /-- **rank = trace for idempotents** (over `ℚ`): the linear-algebra fact that turns the trace table into a rank table -/
@@ -277,31 +358,132 @@ theorem rank_eq_trace_of_idempotent {ι : Type} [Fintype ι] [DecidableEq ι] (P
     (P.rank : ℚ) = P.trace :=
   Toq.Combinat.rank_eq_trace_of_idempotent P h
 
-/-- **Rank table (finite check).**  For every `(d, p)` in the table the symmetric projector has rank `C(d+p-1, p)`.  The trace is
-    evaluated by the kernel on the integer reference model (`decide +kernel`), the rest is the general theory above. -/
-theorem symSpec_rank_table : ∀ dp ∈ rankTable,
-    (symSpec dp.1 dp.2).rank = Nat.choose (dp.1 + dp.2 - 1) dp.2 := by
-  intro dp hdp
-  have h1 := rank_eq_trace_of_idempotent _ (symSpec_mul_self (d := dp.1) (p := dp.2))
-  have h2 := traceN_symRefN (d := dp.1) (p := dp.2) (rankTable_pos dp hdp)
-  rw [sym_trace_table dp hdp] at h2
-  push_cast at h2
-  have h3 : (Matrix.trace (symSpec dp.1 dp.2)) = (Nat.choose (dp.1 + dp.2 - 1) dp.2 : ℚ) :=
-    (mul_left_cancel₀ (fact_ne_zero' (p := dp.2)) h2).symm
-  rw [h3] at h1
-  exact_mod_cast h1
+/-- **Burnside count.**  Summed over all subsystem permutations `σ`, the number of digit vectors fixed by `σ` (i.e. `tr W_σ = d^(cycles σ)`) is
+    `p!` times the number of multisets of `p` digits out of `d`. -/
+theorem fixed_digit_vectors_count (d p : ℕ) :
+    ∑ σ : Perm (Fin p), (Finset.univ.filter (fun x : Fin p → Fin d => x = x ∘ σ)).card = Nat.multichoose d p * p.factorial :=
+  sum_card_fixed
 
-/-- **Rank table (finite check).**  For every `(d, p)` in the table the antisymmetric projector has rank `C(d, p)`. -/
-theorem antiSpec_rank_table : ∀ dp ∈ rankTable, (antiSpec dp.1 dp.2).rank = Nat.choose dp.1 dp.2 := by
-  intro dp hdp
-  have h1 := rank_eq_trace_of_idempotent _ (antiSpec_mul_self (d := dp.1) (p := dp.2))
-  have h2 := traceN_antisymRefN (d := dp.1) (p := dp.2) (rankTable_pos dp hdp)
-  rw [anti_trace_table dp hdp] at h2
-  push_cast at h2
-  have h3 : (Matrix.trace (antiSpec dp.1 dp.2)) = (Nat.choose dp.1 dp.2 : ℚ) :=
-    (mul_left_cancel₀ (fact_ne_zero' (p := dp.2)) h2).symm
-  rw [h3] at h1
-  exact_mod_cast h1
+/-- **Trace of the symmetric projector**, all `d`, `p`: `C(d+p-1, p)`. -/
+theorem symSpec_trace (d p : ℕ) : (symSpec d p).trace = (Nat.choose (d + p - 1) p : ℚ) := trace_symSpec
+
+/-- **Trace of the antisymmetric projector**, all `d`, `p`: `C(d, p)`. -/
+theorem antiSpec_trace (d p : ℕ) : (antiSpec d p).trace = (Nat.choose d p : ℚ) := trace_antiSpec
+
+/-- **Rank of the symmetric projector**, all local dimensions `d` and numbers of copies `p`: `C(d+p-1, p)`. -/
+theorem symSpec_rank (d p : ℕ) : (symSpec d p).rank = Nat.choose (d + p - 1) p := rank_symSpec
+
+/-- **Rank of the antisymmetric projector**, all `d`, `p`: `C(d, p)` (in particular `0` for `d < p`). -/
+theorem antiSpec_rank (d p : ℕ) : (antiSpec d p).rank = Nat.choose d p := rank_antiSpec
+
+/-- the trace of the integer matrix accumulated by `symmetric_projection` / `antisymmetric_projection` (what the driver reports as `trace`) is
+    `p!` times the binomial coefficient, for all `d ≥ 1`, `p` -/
+theorem proj_trace_model {d p : ℕ} (hd : 0 < d) :
+    traceN (d ^ p) (symProjN d p) = (p.factorial : ℤ) * (Nat.choose (d + p - 1) p : ℤ) ∧
+    traceN (d ^ p) (antisymProjN d p) = (p.factorial : ℤ) * (Nat.choose d p : ℤ) :=
+  ⟨traceN_symProjN hd, traceN_antisymProjN hd⟩
+
+/-- the integer matrices of the mirror models, read as rational matrices on digit vectors, have these ranks too -/
+theorem proj_rank_model (d p : ℕ) :
+    (modelMat (d := d) (p := p) (symProjN d p)).rank = Nat.choose (d + p - 1) p ∧
+    (modelMat (d := d) (p := p) (antisymProjN d p)).rank = Nat.choose d p :=
+  ⟨(rank_modelMat _ _ (fun y x => symProjN_eq y x)).trans rank_symSpec,
+   (rank_modelMat _ _ (fun y x => antisymProjN_eq y x)).trans rank_antiSpec⟩
+
+/-- cross-check of the general formulas by kernel evaluation of the integer reference model: `3!·C(5,3)` and `3!·C(3,3)` at `d = p = 3` -/
+example : traceN (3 ^ 3) (symRefN 3 3) = 60 ∧ traceN (3 ^ 3) (antisymRefN 3 3) = 6 ∧ Nat.choose (3 + 3 - 1) 3 = 10 := by
+  decide +kernel
+
+/-! ## uniqueness: the clauses of the property determine the projectors -/
+
+/-- **The symmetric projector is the only matrix with the properties the statement lists**: a symmetric idempotent that is fixed by every subsystem
+    permutation and has rank `C(d+p-1, p)` is `symSpec d p`.  (So the laws the harness evaluates on the implementation's output pin the output down.) -/
+theorem symSpec_unique {d p : ℕ} (Q : Matrix (Fin p → Fin d) (Fin p → Fin d) ℚ) (hT : Qᵀ = Q) (hQ : Q * Q = Q)
+    (hfix : ∀ τ : Perm (Fin p), permMat d p τ * Q = Q) (hr : Q.rank = Nat.choose (d + p - 1) p) : Q = symSpec d p :=
+  symSpec_unique' Q hT hQ hfix hr
+
+/-- **The antisymmetric projector is the only** symmetric idempotent on which every subsystem permutation acts as its sign and that has rank `C(d, p)`. -/
+theorem antiSpec_unique {d p : ℕ} (Q : Matrix (Fin p → Fin d) (Fin p → Fin d) ℚ) (hT : Qᵀ = Q) (hQ : Q * Q = Q)
+    (hsgn : ∀ τ : Perm (Fin p), permMat d p τ * Q = ((Perm.sign τ : ℤ) : ℚ) • Q) (hr : Q.rank = Nat.choose d p) :
+    Q = antiSpec d p :=
+  antiSpec_unique' Q hT hQ hsgn hr
+
+/-- the hypotheses are satisfiable: the projectors themselves meet them -/
+example (d p : ℕ) : (symSpec d p)ᵀ = symSpec d p ∧ symSpec d p * symSpec d p = symSpec d p ∧
+    (∀ τ : Perm (Fin p), permMat d p τ * symSpec d p = symSpec d p) ∧ (symSpec d p).rank = Nat.choose (d + p - 1) p :=
+  ⟨symSpec_transpose, symSpec_mul_self, permMat_mul_symSpec, rank_symSpec⟩
+
+/-! ## ranges -/
+
+/-- `W_τ` permutes the tensor factors: `(W_τ v)[y] = v[y ∘ τ⁻¹]` -/
+theorem permMat_action {d p : ℕ} (τ : Perm (Fin p)) (v : (Fin p → Fin d) → ℚ) (y : Fin p → Fin d) :
+    (permMat d p τ).mulVec v y = v (y ∘ (τ⁻¹ : Perm (Fin p))) := permMat_mulVec τ v y
+
+/-- **The symmetric projector projects onto the permutation-invariant vectors**: `v` is in its range iff `P v = v` iff every subsystem permutation
+    fixes `v`. -/
+theorem symSpec_range {d p : ℕ} (v : (Fin p → Fin d) → ℚ) :
+    (v ∈ LinearMap.range (symSpec d p).mulVecLin ↔ ∀ τ : Perm (Fin p), (permMat d p τ).mulVec v = v) ∧
+    ((symSpec d p).mulVec v = v ↔ ∀ τ : Perm (Fin p), (permMat d p τ).mulVec v = v) :=
+  ⟨(mem_range_iff_of_idempotent _ symSpec_mul_self v).trans (symSpec_mulVec_eq_iff v), symSpec_mulVec_eq_iff v⟩
+
+/-- **The antisymmetric projector projects onto the vectors on which every permutation acts as its sign.** -/
+theorem antiSpec_range {d p : ℕ} (v : (Fin p → Fin d) → ℚ) :
+    (v ∈ LinearMap.range (antiSpec d p).mulVecLin ↔
+      ∀ τ : Perm (Fin p), (permMat d p τ).mulVec v = ((Perm.sign τ : ℤ) : ℚ) • v) ∧
+    ((antiSpec d p).mulVec v = v ↔ ∀ τ : Perm (Fin p), (permMat d p τ).mulVec v = ((Perm.sign τ : ℤ) : ℚ) • v) :=
+  ⟨(mem_range_iff_of_idempotent _ antiSpec_mul_self v).trans (antiSpec_mulVec_eq_iff v), antiSpec_mulVec_eq_iff v⟩
+
+/-! ## `partial=True`: control flow, shapes, and the contract of the isometry -/
+
+/-- the Mathlib-free binomial coefficient of the model is `Nat.choose` -/
+theorem binom_is_choose (n k : ℕ) : binom n k = Nat.choose n k := binom_eq_choose n k
+
+/-- **Shape of the isometry forms.**  For every `d` and `p ≥ 1`, along every branch (`p = 1` early return, the `d < p` early return with
+    `d^p·(1 - partial) = 0` columns, and `orth`), `partial=True` returns `d^p` rows and as many columns as the rank of the projector. -/
+theorem partial_shape (d p : ℕ) (hp : 1 ≤ p) :
+    (symForm d p true).shape = (d ^ p, (symSpec d p).rank) ∧ (antisymForm d p true).shape = (d ^ p, (antiSpec d p).rank) :=
+  ⟨symForm_shape d p hp, antisymForm_shape d p hp⟩
+
+/-- **The early returns are right**, `partial` on or off: for one copy both projectors are the identity (so `np.eye(dim)` is the projector and an
+    isometry onto its range at once); for `d < p` the antisymmetric projector is `0` (no columns). -/
+theorem early_returns (d : ℕ) : symSpec d 1 = 1 ∧ antiSpec d 1 = 1 ∧ ∀ p, d < p → antiSpec d p = 0 :=
+  ⟨symSpec_one_copy, antiSpec_one_copy, fun _ h => antiSpec_eq_zero_of_lt h⟩
+
+/-- **What the harness measures implies the isometry contract** (any field `K` of characteristic `0`, e.g. `ℝ` where the returned doubles live).
+    If `P` is a symmetric idempotent, the columns of `V` are orthonormal (`VᵀV = 1`), lie in the range of `P` (`P V = V`), and there are `rank P`
+    of them, then `V Vᵀ = P`: the columns span exactly the range of `P`. -/
+theorem isometry_contract_of_residuals {K : Type} [Field K] [CharZero K] {ι κ : Type} [Fintype ι] [DecidableEq ι] [Fintype κ]
+    [DecidableEq κ] (P : Matrix ι ι K) (V : Matrix ι κ K) (hT : Pᵀ = P) (hP : P * P = P) (hV : Vᵀ * V = 1) (hPV : P * V = V)
+    (hk : Fintype.card κ = P.rank) : V * Vᵀ = P :=
+  isometry_of_residuals P V hT hP hV hPV hk
+
+/-- **Consequences of the contract.**  If `VᵀV = 1` and `V Vᵀ = P` then `V` has exactly `rank P` columns, `P V = V`, and the column space of
+    `V` is the range of `P`. -/
+theorem isometry_contract_consequences {K : Type} [Field K] [CharZero K] {ι κ : Type} [Fintype ι] [DecidableEq ι] [Fintype κ]
+    [DecidableEq κ] (P : Matrix ι ι K) (V : Matrix ι κ K) (hV : Vᵀ * V = 1) (hVV : V * Vᵀ = P) :
+    Fintype.card κ = P.rank ∧ P * V = V ∧ LinearMap.range V.mulVecLin = LinearMap.range P.mulVecLin :=
+  contract_of_isometry P V hV hVV
+
+/-- **The contract for the two projectors**, entries read in any field `K` of characteristic `0`: a matrix with orthonormal columns, fixed by the
+    symmetric (antisymmetric) projector, with `C(d+p-1, p)` (`C(d, p)`) columns satisfies `V Vᵀ = P`. -/
+theorem partial_contract {K : Type} [Field K] [CharZero K] {d p : ℕ} {κ : Type} [Fintype κ] [DecidableEq κ]
+    (V : Matrix (Fin p → Fin d) κ K) (hV : Vᵀ * V = 1) :
+    (castMat K (symSpec d p) * V = V → Fintype.card κ = Nat.choose (d + p - 1) p → V * Vᵀ = castMat K (symSpec d p)) ∧
+    (castMat K (antiSpec d p) * V = V → Fintype.card κ = Nat.choose d p → V * Vᵀ = castMat K (antiSpec d p)) :=
+  ⟨fun h hk => isometry_of_residuals_cast _ symSpec_transpose symSpec_mul_self V hV h (hk.trans rank_symSpec.symm),
+   fun h hk => isometry_of_residuals_cast _ antiSpec_transpose antiSpec_mul_self V hV h (hk.trans rank_antiSpec.symm)⟩
+
+/-- non-vacuity of the contract: the column `(3/5, 4/5)` and the projector onto its span -/
+example : let P : Matrix (Fin 2) (Fin 2) ℚ := !![9/25, 12/25; 12/25, 16/25]
+    let V : Matrix (Fin 2) (Fin 1) ℚ := !![3/5; 4/5]
+    Pᵀ = P ∧ P * P = P ∧ Vᵀ * V = 1 ∧ P * V = V ∧ V * Vᵀ = P := by
+  intro P V
+  refine ⟨?_, ?_, ?_, ?_, ?_⟩ <;> ext i j <;> fin_cases i <;> fin_cases j <;>
+    simp [P, V, Matrix.mul_apply, Fin.sum_univ_two] <;> norm_num
+
+/-- the branches of the control-flow model on the property's corner cases -/
+example : symForm 3 1 true = .eye 3 ∧ antisymForm 2 3 true = .zeros 8 0 ∧ antisymForm 2 3 false = .zeros 8 8
+    ∧ symForm 3 4 true = .orth 81 15 ∧ antisymForm 4 2 true = .orth 16 6 ∧ antisymForm 4 4 false = .full 256 := by decide
 
 /-- non-vacuity: `2!·symmetric_projection(2, 2)` and `2!·antisymmetric_projection(2, 2)` as the mirror models compute them -/
 example : (List.range 4).map (fun i => (List.range 4).map (symProjN 2 2 i)) = [[2,0,0,0],[0,1,1,0],[0,1,1,0],[0,0,0,2]]
